@@ -121,6 +121,20 @@ def T():
     @add("findif")
     def _(h, i): return [("rec", i.id(), ("findif", [1, 2, 3], [("recx", i.id(), ["_x"])] + h, ("xgt", 1)))]
 
+    # the body rebinds _x: the construct still works on the array's own elements, each iteration gets the next element
+    @add("select-body-assigns-x")
+    def _(h, i): return [("rec", i.id(), ("select", [1, 2, 3], [("assign", "_x", ("xplus", 10)), ("recx", i.id(), ["_x"])] + h, ("xgt", 11)))]
+
+    @add("apply-body-assigns-x")
+    def _(h, i): return [("rec", i.id(), ("apply", [1, 2], [("assign", "_x", ("xplus", 5))] + h, ("xplus", 1)))]
+
+    @add("count-findif-body-assigns-x")
+    def _(h, i): return [("rec", i.id(), ("count", [1, 2, 3], [("assign", "_x", ("xplus", 1))] + h, ("xgt", 2))),
+                         ("rec", i.id(), ("findif", [1, 2, 3], [("assign", "_x", ("xplus", 1))], ("xgt", 2)))]
+
+    @add("foreach-body-assigns-x")
+    def _(h, i): return [("foreach", [4, 5], [("assign", "_x", ("xplus", 100)), ("recx", i.id(), ["_x", "_forEachIndex"])] + h), i.m()]
+
     @add("findif-none")
     def _(h, i): return [("rec", i.id(), ("findif", [1, 2], [i.m()] + h, ("xgt", 5)))]
 
